@@ -1,6 +1,9 @@
 package rules
 
 import (
+	"fmt"
+	"go/token"
+	"go/types"
 	"golang.org/x/tools/go/ssa"
 
 	"iocvet/internal/core"
@@ -85,7 +88,7 @@ func furtherRules(c *core.Ctx, r *core.Report, rule string, want ...string) {
 
 // initErrorRules: the error row of the initialization table (a failing before/after-initialization callback, init
 // method or AfterPropertiesSet ends initialization with an error whatever else it returns).
-func initErrorRules(c *core.Ctx, r *core.Report, rule string) {
+func initErrorRules(c *core.Ctx, r *core.Report, rule string, more ...string) {
 	sub := core.NewReport("C05", c.Tier, 0)
 	l := findLifecycle(c, sub, rule)
 	if l == nil {
@@ -98,12 +101,13 @@ func initErrorRules(c *core.Ctx, r *core.Report, rule string) {
 		r.Undecided(rule, cons, c.FnPos(l.initFn), "abstract interpretation left the model: "+und)
 		return
 	}
+	need, set := pickRows(initRows, append([]string{"error"}, more...))
 	rs.report(c, r, l.initFn, func(row string) string {
-		if row == "error" {
+		if set[row] {
 			return rule
 		}
 		return ""
-	}, cons, map[string]string{"error": initRows["error"]})
+	}, cons, need)
 }
 
 // injectRules: Property.Inject's table rows.
@@ -239,5 +243,474 @@ func chainActiveRules(c *core.Ctx, r *core.Report, rule string) {
 		bsTable(c, r, bs, rule, map[string]bool{"chain-active": true})
 	} else {
 		r.Undecided(rule, "bootstrap", "", why)
+	}
+}
+
+// ownListRules: the property list a processor's PostProcessProperties receives is that call's own list - built anew
+// for the call (never a slice kept in a field or shared between the processors of one component), so a processor
+// that rearranges the list it was handed cannot change what the next processor receives.
+func ownListRules(c *core.Ctx, r *core.Report, rule string) {
+	ro := c.Roles()
+	sites := c.CallSites(func(com *ssa.CallCommon) bool { return core.IsInvoke(com, ro.IAProps) })
+	n := 0
+	for _, s := range sites {
+		fn := s.Parent()
+		if !c.InScope(fn) || len(s.Common().Args) == 0 {
+			continue
+		}
+		// (processors that delegate to another processor hand on what they were given)
+		if p, isParam := core.Norm(s.Common().Args[0]).(*ssa.Parameter); isParam && p.Parent() == fn {
+			continue
+		}
+		n++
+		cons := "own-list@" + core.FnName(fn)
+		why := freshBacking(c, s.Common().Args[0], s, 0, map[ssa.Value]bool{})
+		r.Check(why == "", rule, cons, c.Pos(s.Pos()), "the property list handed to PostProcessProperties is built anew for that call: no processor shares its backing array with another one or with the definition "+why)
+	}
+	r.Floor(rule, "sites handing a property list to PostProcessProperties", n, 1)
+}
+
+// freshBacking: the backing array of slice v is made for this use - it comes from make / append to nil / a function
+// all of whose results are such, inside the innermost loop of the use site, and the slice is not stored anywhere but
+// in locals.  Returns "" or what stands against it.
+func freshBacking(c *core.Ctx, v ssa.Value, use ssa.Instruction, depth int, seen map[ssa.Value]bool) string {
+	if seen[v] {
+		return ""
+	}
+	seen[v] = true
+	if depth > 6 {
+		return "(provenance too deep)"
+	}
+	escapes := func(x ssa.Value) string {
+		if x.Referrers() == nil {
+			return ""
+		}
+		for _, rf := range *x.Referrers() {
+			if st, ok := rf.(*ssa.Store); ok && st.Val == x {
+				if _, local := st.Addr.(*ssa.Alloc); !local {
+					return "(the list is also stored at " + c.Pos(st.Pos()) + ")"
+				}
+			}
+			if _, ok := rf.(*ssa.MapUpdate); ok {
+				return "(the list is also kept in a map at " + c.Pos(rf.Pos()) + ")"
+			}
+		}
+		return ""
+	}
+	inLoopOfUse := func(in ssa.Instruction) bool {
+		if use == nil || in.Parent() != use.Parent() {
+			return true
+		}
+		l := core.InnermostLoop(use.Parent(), use.Block())
+		return l == nil || l.Blocks[in.Block()]
+	}
+	switch x := v.(type) {
+	case *ssa.Const:
+		if x.IsNil() {
+			return ""
+		}
+	case *ssa.MakeSlice:
+		if !inLoopOfUse(x) {
+			return "(made once at " + c.Pos(x.Pos()) + " for every call of the loop)"
+		}
+		return escapes(x)
+	case *ssa.ChangeType:
+		return freshBacking(c, x.X, use, depth, seen)
+	case *ssa.Slice:
+		if al, ok := x.X.(*ssa.Alloc); ok {
+			if !inLoopOfUse(al) {
+				return "(one array at " + c.Pos(al.Pos()) + " for every call of the loop)"
+			}
+			return escapes(x)
+		}
+		return freshBacking(c, x.X, use, depth, seen)
+	case *ssa.Phi:
+		for _, e := range x.Edges {
+			if w := freshBacking(c, e, use, depth, seen); w != "" {
+				return w
+			}
+		}
+		return escapes(x)
+	case *ssa.UnOp:
+		if x.Op == token.MUL {
+			if al, ok := x.X.(*ssa.Alloc); ok {
+				for _, rf := range *al.Referrers() {
+					if st, ok := rf.(*ssa.Store); ok && st.Addr == ssa.Value(al) {
+						if w := freshBacking(c, st.Val, use, depth, seen); w != "" {
+							return w
+						}
+					}
+				}
+				return ""
+			}
+			if fa, ok := x.X.(*ssa.FieldAddr); ok {
+				fr, _ := core.FieldOfAddr(fa)
+				return "(it is the list kept in field " + fr.Name + ")"
+			}
+		}
+	case *ssa.Call:
+		if bi, ok := x.Common().Value.(*ssa.Builtin); ok && bi.Name() == "append" {
+			if w := freshBacking(c, x.Common().Args[0], use, depth, seen); w != "" {
+				return w
+			}
+			return escapes(x)
+		}
+		if !inLoopOfUse(x) {
+			return "(obtained once at " + c.Pos(x.Pos()) + " for every call of the loop)"
+		}
+		if w := escapes(x); w != "" {
+			return w
+		}
+		cal := c.ResolvedCallee(x.Common())
+		if cal == nil || cal.Blocks == nil || !c.InScope(cal) {
+			return "(it comes from a call the check cannot follow at " + c.Pos(x.Pos()) + ")"
+		}
+		for _, ret := range core.Returns(cal) {
+			if len(ret.Results) == 0 {
+				continue
+			}
+			if w := freshBacking(c, ret.Results[0], nil, depth+1, seen); w != "" {
+				return w
+			}
+		}
+		return ""
+	}
+	return "(it is " + v.Name() + " at " + c.Pos(v.Pos()) + ", not a list made for the call)"
+}
+
+// lazyBaseRules: which exported struct types make a component that embeds them exempt from eager creation (they
+// carry definition.LazyInit's method) is part of the contract towards user components: a frozen census.  A user
+// post-processor built on one of the no-op bases is created - and its required points and initialisation errors
+// are reported - at start-up exactly when the base it embeds is not in this table.
+func lazyBaseRules(c *core.Ctx, r *core.Report, rule string) {
+	lazy := c.Iface("definition", "LazyInit")
+	if lazy == nil {
+		r.Undecided(rule, "role:LazyInit", "", "definition.LazyInit not found")
+		return
+	}
+	want := map[string]string{
+		"definition.LazyInitComponent":                                       "the marker itself",
+		"container/processors.DefaultTagScanDefinitionRegistryPostProcessor": "tag scanners are taken from the registry as they are",
+	}
+	n := 0
+	for _, p := range c.Pkgs {
+		if !core.InScopePath(p.PkgPath) || p.Types == nil {
+			continue
+		}
+		sc := p.Types.Scope()
+		for _, name := range sc.Names() {
+			tn, ok := sc.Lookup(name).(*types.TypeName)
+			if !ok || !tn.Exported() || tn.IsAlias() {
+				continue
+			}
+			if _, isStruct := tn.Type().Underlying().(*types.Struct); !isStruct {
+				continue
+			}
+			if nt, isNamed := tn.Type().(*types.Named); isNamed && nt.TypeParams().Len() > 0 {
+				continue
+			}
+			n++
+			if !types.Implements(types.NewPointer(tn.Type()), lazy) {
+				continue
+			}
+			key := core.Short(p.PkgPath) + "." + name
+			_, known := want[key]
+			r.Check(known, rule, "lazy-base:"+key, c.Pos(tn.Pos()), "an exported type that makes its embedders lazily created is one of the documented ones (the LazyInit marker, the tag-scanner base): components built on any other exported base are created, checked and initialised at start-up")
+		}
+	}
+	r.Floor(rule, "exported struct types examined", n, 10)
+}
+
+// immutableLoggerRules: logger objects are handed to every component and used from the goroutines of both
+// concurrent phases without a lock, which is race-free only because a logger is never written after it was built:
+// every store into a field of a Logger implementation goes to an object the storing function has just made.
+func immutableLoggerRules(c *core.Ctx, r *core.Report, rule string) {
+	iface := c.Iface("syslog", "Logger")
+	if iface == nil {
+		r.Undecided(rule, "role:Logger", "", "syslog.Logger not found")
+		return
+	}
+	impls := c.Implementors(iface)
+	r.Floor(rule, "Logger implementations in scope", len(impls), 1)
+	for _, T := range impls {
+		st := core.StructOf(T)
+		if st == nil {
+			continue
+		}
+		n := 0
+		for i := 0; i < st.NumFields(); i++ {
+			stores, _ := c.FieldAccesses(T, st.Field(i).Name())
+			for _, a := range stores {
+				n++
+				ok := freshObject(c, a.Addr.X, 0)
+				if !ok {
+					r.Fail(rule, "logger-write:"+T.Obj().Name()+"."+st.Field(i).Name()+"@"+core.FnName(a.Fn), c.Pos(a.Instr.Pos()),
+						"a logger that may already be in use by other goroutines is written in place (loggers are shared without a lock: only an object the function has just made may be filled in)")
+				}
+			}
+		}
+		r.Hold(rule, "logger-immutable:"+T.Obj().Name(), c.Pos(T.Obj().Pos()), fmt.Sprintf("every field store (%d) of the shared logger type goes to a freshly made object", n))
+	}
+}
+
+// freshObject: v points to an object made by the function itself - an allocation, or the result of an in-scope
+// function all of whose results are such.
+func freshObject(c *core.Ctx, v ssa.Value, depth int) bool {
+	if depth > 3 {
+		return false
+	}
+	switch x := core.Norm(v).(type) {
+	case *ssa.Alloc:
+		return true
+	case *ssa.Phi:
+		for _, e := range x.Edges {
+			if !freshObject(c, e, depth) {
+				return false
+			}
+		}
+		return true
+	case *ssa.Call:
+		cal := x.Common().StaticCallee()
+		if cal == nil || cal.Blocks == nil || !c.InScope(cal) {
+			return false
+		}
+		rets := core.Returns(cal)
+		for _, ret := range rets {
+			if len(ret.Results) == 0 || !freshObject(c, ret.Results[0], depth+1) {
+				return false
+			}
+		}
+		return len(rets) > 0
+	}
+	return false
+}
+
+// perContainerProcessorRules: the built-in processors keep what their container handed them (its definition registry,
+// its configuration) in their own fields, so every container has to register instances of its own: no processor is
+// made by a package initialiser or parked in a package-level variable, from where every container of the process
+// would register the same object - and look names up in whichever container was prepared last.
+func perContainerProcessorRules(c *core.Ctx, r *core.Report, rule string) {
+	ps := builtinProcessors(c)
+	n := 0
+	for _, p := range ps {
+		if !p.Registered {
+			continue
+		}
+		n++
+		cons := "per-container:" + p.Name()
+		bad := ""
+		// only a processor that is written after it was made keeps state of its container
+		stateful := ""
+		if st := core.StructOf(p.T); st != nil {
+			for i := 0; i < st.NumFields(); i++ {
+				stores, _ := c.FieldAccesses(p.T, st.Field(i).Name())
+				for _, a := range stores {
+					if !freshObject(c, a.Addr.X, 0) {
+						stateful = st.Field(i).Name()
+					}
+				}
+			}
+		}
+		if stateful == "" {
+			r.Hold(rule, cons, c.Pos(p.T.Obj().Pos()), "the processor is never written after it was made: it keeps nothing of its container")
+			continue
+		}
+		// the functions that make a processor of this type, and those that just hand one on
+		var makers []*ssa.Function
+		for _, fn := range c.Scope {
+			for _, b := range fn.Blocks {
+				for _, in := range b.Instrs {
+					if al, ok := in.(*ssa.Alloc); ok && al.Heap && core.NamedOf(al.Type()) == p.T {
+						makers = append(makers, fn)
+					}
+				}
+			}
+		}
+		seen := map[*ssa.Function]bool{}
+		for len(makers) > 0 {
+			fn := makers[0]
+			makers = makers[1:]
+			if seen[fn] {
+				continue
+			}
+			seen[fn] = true
+			if fn.Synthetic != "" && fn.Name() == "init" {
+				bad = "made by the package initialiser of " + core.Short(fn.Pkg.Pkg.Path())
+				break
+			}
+			for _, site := range staticCallsOf(fn) {
+				caller := site.Parent()
+				if caller.Synthetic != "" && caller.Name() == "init" {
+					bad = "made once per process, by the package initialiser of " + core.Short(caller.Pkg.Pkg.Path()) + " (" + c.Pos(site.Pos()) + ")"
+				}
+				for _, o := range flowsTo(site) {
+					switch x := o.(type) {
+					case *ssa.Store:
+						if g, isG := x.Addr.(*ssa.Global); isG {
+							bad = "kept in the package-level variable " + g.Name() + " (" + c.Pos(x.Pos()) + ")"
+						}
+					case *ssa.Return:
+						makers = append(makers, caller) // a constructor that delegates
+					}
+				}
+			}
+		}
+		r.Check(bad == "", rule, cons, c.Pos(p.T.Obj().Pos()), "every container registers a processor instance of its own (the processor keeps what its container handed it in field "+stateful+") "+bad)
+	}
+	r.Floor(rule, "registered built-in processors", n, 5)
+}
+
+// flowsTo: the stores and returns a call's result reaches through conversions, phis and variadic temporaries.
+func flowsTo(v ssa.Value) []ssa.Instruction {
+	var out []ssa.Instruction
+	seen := map[ssa.Value]bool{}
+	var walk func(v ssa.Value, d int)
+	walk = func(v ssa.Value, d int) {
+		if seen[v] || d > 6 || v.Referrers() == nil {
+			return
+		}
+		seen[v] = true
+		for _, rf := range *v.Referrers() {
+			switch x := rf.(type) {
+			case *ssa.Store:
+				if x.Val == v {
+					out = append(out, x)
+				}
+			case *ssa.Return:
+				out = append(out, x)
+			case *ssa.MakeInterface:
+				walk(x, d+1)
+			case *ssa.ChangeInterface:
+				walk(x, d+1)
+			case *ssa.ChangeType:
+				walk(x, d+1)
+			case *ssa.Phi:
+				walk(x, d+1)
+			}
+		}
+	}
+	walk(v, 0)
+	return out
+}
+
+// noCarriedStateRules: the per-property loop of a property processor hands nothing from one property to the next: no
+// variable that lives across iterations is written in one iteration (by the loop body or by a function literal made
+// in it) and read in a later one before being written again.  The property list arrives in map order, so carried
+// state would make the outcome depend on that order.
+func noCarriedStateRules(c *core.Ctx, r *core.Report, rule string) {
+	n := 0
+	for _, p := range builtinProcessors(c) {
+		if !p.Registered {
+			continue
+		}
+		rl := propertiesLoop(p)
+		if rl == nil {
+			continue // decided by the loop-shape rule of the processor
+		}
+		n++
+		cons := "no-carried-state:" + p.Name()
+		bad := ""
+		// registers carried round the loop
+		for _, in := range rl.Header.Instrs {
+			if phi, ok := in.(*ssa.Phi); ok && phi != rl.Index {
+				if isErrorType(phi.Type()) {
+					continue // an error remembered for the end of the loop is decided by the error-flow rules
+				}
+				bad = "value " + phi.Comment + " is carried from one property to the next (" + c.Pos(phi.Pos()) + ")"
+			}
+		}
+		// cells that outlive an iteration
+		for _, b := range p.Props.Blocks {
+			if rl.Loop.Blocks[b] {
+				continue
+			}
+			for _, in := range b.Instrs {
+				al, ok := in.(*ssa.Alloc)
+				if !ok || isErrorType(al.Type().Underlying().(*types.Pointer).Elem()) {
+					continue
+				}
+				type acc struct {
+					in    ssa.Instruction
+					store bool
+					via   ssa.Instruction // for an access inside a function literal: where the loop body makes the literal
+				}
+				var accs []acc
+				var collect func(cell ssa.Value, inLoop func(ssa.Instruction) bool, via ssa.Instruction)
+				collect = func(cell ssa.Value, inLoop func(ssa.Instruction) bool, via ssa.Instruction) {
+					for _, rf := range *cell.Referrers() {
+						switch x := rf.(type) {
+						case *ssa.Store:
+							if x.Addr == cell && inLoop(x) {
+								accs = append(accs, acc{x, true, via})
+							}
+						case *ssa.UnOp:
+							if x.Op == token.MUL && inLoop(x) {
+								accs = append(accs, acc{x, false, via})
+							}
+						case *ssa.MakeClosure:
+							if !inLoop(x) {
+								continue
+							}
+							fn := x.Fn.(*ssa.Function)
+							v := via
+							if v == nil {
+								v = x
+							}
+							for i, bnd := range x.Bindings {
+								if bnd == cell && i < len(fn.FreeVars) {
+									collect(fn.FreeVars[i], func(ssa.Instruction) bool { return true }, v)
+								}
+							}
+						}
+					}
+				}
+				collect(al, func(i ssa.Instruction) bool { return rl.Loop.Blocks[i.Block()] }, nil)
+				var stores, loads []acc
+				for _, a := range accs {
+					if a.store {
+						stores = append(stores, a)
+					} else {
+						loads = append(loads, a)
+					}
+				}
+				if len(stores) == 0 {
+					continue // only read inside the loop
+				}
+				for _, l := range loads {
+					ld := l.in
+					fresh := false
+					for _, s := range stores {
+						st := s.in
+						if st.Parent() == ld.Parent() && core.Dominates(st, ld) {
+							fresh = true
+						}
+						// set by the loop body before the literal that reads it is made
+						if s.via == nil && l.via != nil && core.Dominates(st, l.via) {
+							fresh = true
+						}
+					}
+					if !fresh {
+						bad = "variable " + al.Comment + " is written while one property is processed and read, without being set again first, while another is (" + c.Pos(ld.Pos()) + ")"
+					}
+				}
+			}
+		}
+		r.Check(bad == "", rule, cons, c.FnPos(p.Props), "nothing is handed from one property to the next: the per-property loop is a function of each property alone "+bad)
+	}
+	r.Floor(rule, "registered processors with a per-property loop", n, 5)
+}
+
+func isErrorType(t types.Type) bool {
+	return types.Identical(t, types.Universe.Lookup("error").Type())
+}
+
+// refiled runs a rule set written for another property on a scratch report and files its obligations under rule.
+func refiled(c *core.Ctx, r *core.Report, rule string, run func(sub *core.Report)) {
+	sub := core.NewReport(r.Property, c.Tier, 0)
+	run(sub)
+	for _, o := range sub.Obls {
+		o2 := *o
+		o2.Rule = rule
+		r.Obls = append(r.Obls, &o2)
 	}
 }
